@@ -195,17 +195,31 @@ class ZoneAnalysis:
         """sites of a const-generic function that the generic analysis leaves open: decided per instantiation the crate makes (preconditions of
         an instantiation are checked at the call sites that make it)"""
         path = zf.body.path
-        if zf.cg or zf.body.kind == 'Closure' or not self.cg_names(path) or not any(s.status == 'unknown' for s in zf.sites):
+        if zf.cg or not any(s.status == 'unknown' for s in zf.sites):
             return
-        insts = self.instances(path)
+        closure = zf.body.kind == 'Closure'
+        owner = zf.body.j.get('parent_fn', path) if closure else path
+        if owner not in self.prog.bodies or not (self.cg_names(owner) | self.cg_names(path)):
+            return
+        # a closure of a const-generic function (`core::array::from_fn(|k| .. N ..)`) is judged under the instantiations of that function
+        insts = self.instances(owner)
         if not insts:
             return
         per = []
         for cg in insts:
-            summ = self.summary_spec(path, cg)
-            if summ is None:
-                return
+            if not closure:
+                summ = self.summary_spec(path, cg)
+                if summ is None:
+                    return
             spec = self.zf_spec(path, cg)
+            if closure and not getattr(spec, '_analysed_as_instance', False):
+                prev = getattr(self, '_cg_ctx', None)
+                self._cg_ctx = (owner, dict(cg))
+                try:
+                    self.analyse_sites(spec)
+                finally:
+                    self._cg_ctx = prev
+                spec._analysed_as_instance = True
             m = {}
             for x in spec.sites:
                 m.setdefault((x.kind, x.block), []).append(x.status)
